@@ -180,3 +180,30 @@ Theorem generated_overlap_join_wrapper_refines_model :
   ltac:(let t := type of overlap_join_rows_end_to_end_flat in exact t).
 Proof. exact overlap_join_rows_end_to_end_flat. Qed.
 Print Assumptions generated_overlap_join_wrapper_refines_model.
+
+(* ==== the property stated DIRECTLY ABOUT THE CODE: the function regenerated from the Python source on this
+   run (Gen/WrapperGen.v, Gen/FilterWrapperGen.v, Gen/MatcherGen.v), applied to any well-formed frames,
+   returns a frame with header header_spec whose rows, read at key level (kview: left key, right key,
+   score), satisfy complete_spec /\ sound_spec /\ missing_spec /\ empty_spec (Spec/JoinSpec.v, MetaSpec.v)
+   -- composition of `generated code refines api_join` with `api_join satisfies the specs` *)
+From SSJ Require Import CodeLevelBase CodeLevelJoins CodeLevelJoins2 CodeLevelFilters CodeLevelMatcher CodeLevelTight.
+Theorem C01_code_jaccard :
+  ltac:(let t := type of C01_C02_code_jaccard_tight in exact t).
+Proof. exact C01_C02_code_jaccard_tight. Qed.
+Print Assumptions C01_code_jaccard.
+Theorem C01_code_cosine :
+  ltac:(let t := type of C01_C02_code_cosine_tight in exact t).
+Proof. exact C01_C02_code_cosine_tight. Qed.
+Print Assumptions C01_code_cosine.
+Theorem C01_code_dice :
+  ltac:(let t := type of C01_C02_code_dice_tight in exact t).
+Proof. exact C01_C02_code_dice_tight. Qed.
+Print Assumptions C01_code_dice.
+Theorem C01_code_overlap_coefficient :
+  ltac:(let t := type of C01_C02_code_overlap_coefficient_tight in exact t).
+Proof. exact C01_C02_code_overlap_coefficient_tight. Qed.
+Print Assumptions C01_code_overlap_coefficient.
+Theorem C01_code_overlap_join :
+  ltac:(let t := type of C01_C02_code_overlap_join_tight in exact t).
+Proof. exact C01_C02_code_overlap_join_tight. Qed.
+Print Assumptions C01_code_overlap_join.
